@@ -472,12 +472,25 @@ func formatLayers(tier string) []Layer {
 		for _, v := range [][]uint64{{0, BW / 4}, {0, 0, BW / 2}, {0, 3, BW / 10}, {0, 0, 0, 123 * (BW / 1000)}, {7, 0, BW - 1}} {
 			base = append(base, mkWords(false, v, 0, uint32(len(v)*DW)+3, 0))
 		}
+		// 5- and 9-word mantissas of one repeated word with a zero word at every index below the top
+		for _, n := range []int{5, 9} {
+			for _, w := range []uint64{BW - 1, 1234567890123456789} {
+				for i := 0; i < n-1; i++ {
+					v := make([]uint64, n)
+					for k := range v {
+						v[k] = w
+					}
+					v[i] = 0
+					base = append(base, mkWords(false, v, 0, uint32(n*DW)+3, 0))
+				}
+			}
+		}
 		exps := []int64{-8, -7, -6, -5, -4, -3, -2, -1, 0, 1, 2, 3, 4, 5, 6, 7, 8, 9, 10, 11, 21, 22, 40, 99, 100, 101, 102, -98, -99, -100, -101, 1000, 1001, -999, -1000}
 		precs := []int{-1, 0, 1, 2, 3, 4, 5, 6, 7, 8, 20, 40}
 		layers = append(layers, Layer{
 			Name:   "V1-text",
 			Units:  len(base),
-			Bounds: fmt.Sprintf("x = c×10^e for c in D(%d) ∪ 23 tie/all-nines/long (multi-word, leading 5) literals, decimal-point positions %v, ±, plus ±0, ±Inf; x.mode in 6 modes; formats e,E,f,g,G,p,b; precisions %v; Append == Text", k, exps, precs),
+			Bounds: fmt.Sprintf("x = c×10^e for c in D(%d) ∪ 23 tie/all-nines/long (multi-word, leading 5) literals ∪ 5- and 9-word mantissas of one repeated word with a zero word at every index, decimal-point positions %v, ±, plus ±0, ±Inf; x.mode in 6 modes; formats e,E,f,g,G,p,b; precisions %v; Append == Text", k, exps, precs),
 			Run: func(c *Ctx, u int) {
 				for _, e := range exps {
 					for _, neg := range []bool{false, true} {
